@@ -452,3 +452,18 @@ Proof.
 Qed.
 
 End Tok.
+
+(* the statement for users: an invariant of the callback indexed by the typestate of the start
+   tag and by the position is carried through the whole document *)
+Theorem tokenizer_token_ranges : forall text (C : Type) (ev : token -> C -> res C)
+    (J : bool -> N -> C -> Prop) dtd c c',
+  valid_utf8_b text = true ->
+  (forall tok c0 c1 p0 p1, J (tok_pre tok) p0 c0 -> TokAt text p0 p1 tok ->
+                           ev tok c0 = Ok c1 -> J (tok_post tok) p1 c1) ->
+  J false 0 c -> parse_document text C ev dtd c = Ok c' -> exists p, J false p c'.
+Proof.
+  intros text C ev J dtd c c' Hv Hev Hc H.
+  refine (parse_document_R text Hv C ev J Hev dtd c _ c' H).
+  exists 0. split; [cbn; lia|exact Hc].
+Qed.
+Print Assumptions tokenizer_token_ranges.
